@@ -572,8 +572,7 @@ theorem pin_maxTimeWarp : Generated.C09.maxTimeWarpSecs = MAX_TIMEWARP := by dec
 theorem pin_maxTimeOffset : Generated.C09.maxTimeOffsetSeconds = MAX_TIME_OFFSET := by decide
 theorem pin_adjusted_time :
     Generated.C09.maxAllowedOffsetSecs = MAX_ALLOWED_OFFSET ∧
-    Generated.C09.maxMedianTimeEntries = (MAX_MEDIAN_TIME_ENTRIES : Int) ∧
-    Generated.C09.similarTimeSecs = 300 := by decide
+    Generated.C09.maxMedianTimeEntries = (MAX_MEDIAN_TIME_ENTRIES : Int) := by decide
 theorem pin_main :
     Generated.C09.main_powLimit = 2^224 - 1 ∧ Generated.C09.main_powLimitBits = 0x1d00ffff ∧
     Generated.C09.main_subsidyInterval = 210000 ∧ Generated.C09.main_targetTimespan = 1209600 ∧
